@@ -107,6 +107,25 @@ class _Blank(ast.NodeTransformer):
         return ast.arg(arg="_", annotation=None)
 
 
+def _shape(e, blank) -> str:
+    """ast.dump without field names, with the names in `blank` (and every `arg`) written as `_` -- no copy of the tree"""
+    if isinstance(e, ast.Name):
+        return "N(_)" if e.id in blank else f"N({e.id})"
+    if isinstance(e, ast.arg):
+        return "a(_)"
+    if isinstance(e, ast.AST):
+        parts = []
+        for f_ in e._fields:
+            v = getattr(e, f_, None)
+            if f_ == "ctx":
+                continue
+            parts.append(_shape(v, blank))
+        return f"{type(e).__name__}({','.join(parts)})"
+    if isinstance(e, list):
+        return "[" + ",".join(_shape(x, blank) for x in e) + "]"
+    return repr(e)
+
+
 def _sig(kind, expr, pos, localnames, params=()) -> str:
     if expr is None:
         shape = ""
@@ -118,8 +137,7 @@ def _sig(kind, expr, pos, localnames, params=()) -> str:
             elif isinstance(x, _COMPS):
                 for g in x.generators:
                     inner |= {nm.id for nm, _ in _target_names(g.target)}
-        import copy
-        shape = ast.dump(_Blank(localnames | inner).visit(copy.deepcopy(expr)), annotate_fields=False)
+        shape = _shape(expr, localnames | inner)
     return hashlib.md5(f"{kind}|{pos}|{shape}".encode()).hexdigest()[:12]
 
 
@@ -203,9 +221,10 @@ def locals_back(trees: Dict[str, ast.Module]) -> List[Tuple[str, str, str]]:
             bl = b_rel.get(qn)
             if not bl:
                 continue
-            cur = bindings(d)
-            if not cur or [c[0] for c in cur] == [b[0] for b in bl] and len(cur) == len(bl):
+            names_now = [x[0] for x in sites(d)]      # cheap; signatures only when a name differs from the pinned list
+            if not names_now or names_now == [b[0] for b in bl]:
                 continue
+            cur = bindings(d)
             sm = difflib.SequenceMatcher(a=[b[1] for b in bl], b=[c[1] for c in cur], autojunk=False)
             votes: Dict[str, set] = {}
             for blk in sm.get_matching_blocks():
